@@ -13,7 +13,7 @@ CHECKS = {
             'Rocq/Coq proof by induction over the receive sequence + real-time relational trace validation',
             "DESIGN.md section 5.5 and 6 C01"),
     "C02": (True,
-            'Coq proofs: every batch without an urgent event is delivered no earlier than first-receive + throttle (monotone receive times); a window timeout delivers exactly at first + throttle on an ideal clock whatever rejected events arrive meanwhile (they never touch the set or its window); an urgent event flushes at once unfiltered; zero throttle gives one batch per event; for a throttle changed at run time (Worker/ThrottleRt.v: events and configuration changes as inputs, value read at the previous loop turn vs value configured now) the machine equals the constant one when nothing changes, conserves events and delivers no earlier than first + a configured value, for any change history. Lower bound checked exactly on real-time observations incl. run-time changes, upper bound with slack.',
+            'Coq proofs: every batch without an urgent event is delivered no earlier than first-receive + throttle (monotone receive times); a window timeout delivers exactly at first + throttle on an ideal clock whatever rejected events arrive meanwhile (they never touch the set or its window); on the ideal clock the delivery is EXACTLY at first + throttle (upper bound: rejected or erroring events never postpone it); an urgent event flushes at once unfiltered; zero throttle gives one batch per event; for a throttle changed at run time (Worker/ThrottleRt.v: events and configuration changes as inputs, value read at the previous loop turn vs value configured now) the machine equals the constant one when nothing changes, conserves events and delivers no earlier than first + a configured value, for any change history. Lower bound checked exactly on real-time observations incl. run-time changes, upper bound with slack.',
             'Trusted: Coq kernel, harness (real-time taps through a scripted Filterer and action handler). tokio timeout, std Instant, async-priority-channel are modelled; the model is evaluated on the observed receive instants (cases within 18 ms of a window edge are judged by the monitors only). No axioms.',
             'Rocq/Coq proof over the throttle machine + exact lower-bound / slack upper-bound monitors on real-time runs',
             "DESIGN.md section 5.5 and 6 C02"),
@@ -94,8 +94,9 @@ CHECKS = {
     "C14": (True,
             "PARTIAL proof. Coq proofs about the DirTourist stack-machine model (any file system, listing order, watch list): every returned file is an "
             "explicit / origin-level file or the non-empty regular .ignore/.gitignore/.hgignore of a visited directory, tagged with that directory "
-            "and project type, from a directory related to the explicit watches; skipping purges the stack. Not yet proved: equality with the "
-            "structural reachability specification and listing-order independence; these are checked on every run by evaluating the model under "
+            "and project type, from a directory related to the explicit watches; pruning is permanent: once a directory has been skipped nothing from it or from "
+            "anywhere below it is returned afterwards, from every state the walk reaches (file systems with absolute paths). Not yet proved: completeness "
+            "(every non-pruned directory is visited) and listing-order independence; these are checked on every run by evaluating the model under "
             "two listing orders against ignore_files::from_origin on generated trees (prefix-related siblings, negations, empty files, nested VCS dirs). "
             "One genuine defect (nested VCS metadata directories entered) found and repaired.",
             "Trusted: Coq kernel, harness; tokio fs calls, gix_config (core.excludesFile is a model input), the IgnoreFilter model of C03. No axioms.",
